@@ -1,8 +1,9 @@
 import Percival.Driver.Loop
-import Percival.Model.OsEntropy
-/-! `pmodel osent`: util/entropy.c over a scripted /dev/urandom.  L1 = the first n bytes of the OS stream (spec), L2 = read calls. -/
+import Percival.Model.EntropyStep
+/-! `pmodel osent`: util/entropy.c over a scripted /dev/urandom.  L1 = the first n bytes of the OS stream (spec), L2 = read calls.
+Thin by construction: `parse`, `Model.EntropyStep.osStep`, `render`. -/
 namespace Percival.Driver.Osent
-open Percival.Driver Percival.Model.OsEntropy
+open Percival.Driver Percival.Model.OsEntropy Percival.Model.EntropyStep
 
 def parseItem (t : String) : Option ReadAns :=
   match t.toList with
@@ -13,21 +14,22 @@ def parseItem (t : String) : Option ReadAns :=
   | ['x'] => some .err
   | _ => none
 
+/-- `osread n stream script`: the script is a comma list of read answers; an item `o` makes `open` fail -/
+def parse : List String → Option (Bool × Nat × List UInt8 × List ReadAns)
+  | ["osread", n, stream, script] => do
+      let items := if script = "-" then [] else script.splitOn ","
+      pure (!items.contains "o", ← n.toNat?, ← bytesOfHex stream, items.filterMap parseItem)
+  | _ => none
+
+def render (o : OsOut) : String :=
+  let calls := String.join (o.calls.reverse.map fun p => s!"{p.1}>{p.2},")
+  let l1 := if o.ok then s!"ok {hexOfBytes o.spec}" else "fail"
+  s!"{l1} | {if o.ok then hexOfBytes o.got else "-"} [{calls}]"
+
 def step (_ : Unit) (toks : List String) : Unit × String :=
-  match toks with
-  | ["osread", n, stream, script] =>
-      match n.toNat?, bytesOfHex stream with
-      | some n, some st =>
-        let items := if script = "-" then [] else script.splitOn ","
-        let openOk := !items.contains "o"
-        let sc := items.filterMap parseItem
-        let r := entropyRead openOk n st sc
-        let calls := String.join (r.calls.reverse.map fun p => s!"{p.1}>{p.2},")
-        -- L1 from the specification: success delivers exactly the first n bytes of the stream
-        let l1 := if r.ok then s!"ok {hexOfBytes (st.take n)}" else "fail"
-        ((), s!"{l1} | {if r.ok then hexOfBytes r.got else "-"} [{calls}]")
-      | _, _ => ((), "bad-op")
-  | _ => ((), "bad-op")
+  match parse toks with
+  | some (openOk, n, st, sc) => ((), render (osStep openOk n st sc))
+  | none => ((), "bad-op")
 
 def main (_args : List String) : IO UInt32 := loop () step
 end Percival.Driver.Osent
